@@ -95,7 +95,9 @@ def run(c):
            desc="Pool::reconcile re-adds every surviving entry through add_to_pool (a failing entry is dropped)")
     c.r1("reconcile-clears-first", PL + "reconcile", "re:alloc::vec::Vec::clear$", sink=PL + "add_to_pool", via=2)
     R = TP + "reconcile_block"
-    c.r1("reconcile-block-txpool", R, PL + "reconcile", via=2)
+    c.r1("reconcile-block-txpool", R, PL + "reconcile", require_where=r"^arg0\.txpool", via=2,
+         desc="TransactionPool::reconcile_block: the txpool is fully re-validated against the new head on every path (not only when the quick filter removed something)")
+    c.r1("reconcile-block-stempool", R, PL + "reconcile", require_where=r"^arg0\.stempool", via=2)
     c.r1("reconcile-block-order", R, PL + "reconcile_block", sink=PL + "reconcile", via=2)
     c.r2_arg("stempool-reconciled-with-txpool", R, PL + "reconcile", 1, must=["call:Pool::all_transactions_aggregate", "arg0.txpool"], where=r"^arg0\.stempool", floor=1)
     # --- mineable set and block template
